@@ -197,20 +197,32 @@ class Run:
             self.broken.append(dict(kind='proof-break', what='forbidden construct in the development', detail=bad))
         return not bad
 
-    def regenerate(self):
-        """Re-run the translators on /repo's current working tree (coq/gen/*.v are rewritten only when they change)."""
+    # which generated models the property files of each property import (directly or through the tie files)
+    NEEDS = {'C01': ['formulas'], 'C02': ['formulas'], 'C03': [], 'C04': ['skeleton'], 'C05': ['blocks'], 'C06': ['blocks'], 'C07': ['formulas'],
+             'C08': [], 'C09': ['skeleton'], 'C10': ['skeleton'], 'C11': ['formulas'], 'C12': ['formulas'], 'C13': ['blocks'],
+             'C14': ['blocks', 'formulas'], 'C15': [], 'C16': [], 'C17': ['blocks'], 'C18': ['skeleton'], 'C19': ['cli_surface'], 'C20': ['blocks']}
+
+    def regenerate(self, needs=None):
+        """Re-run the translators on /repo's current working tree (coq/gen/*.v are rewritten only when they change).  A translator that
+        fails breaks the tie of the properties that depend on its output (and only of those)."""
+        if getattr(self, '_regenerated', False):
+            return True
+        self._regenerated = True
+        needs = self.NEEDS.get(self.pid, []) if needs is None else needs
         with CoqLock():
             rc, out = sh([PY, str(VERIF / 'translate' / 'regen.py')], 120, cwd=VERIF)
         self.checker_cmds.append('translate/regen.py  (regenerates coq/gen/*.v from /repo)')
-        self.trusted.append('translators translate/skeleton.py, translate/cli_surface.py (python ast / click introspection, fail-closed)')
-        if rc != 0:
-            self.broken.append(dict(kind='proof-break', what='translator could not translate the current source (unrecognised construct)',
+        self.trusted.append('translators translate/{skeleton,cli_surface,formulas,blocks}.py (python ast / click introspection, fail-closed)')
+        failed = [n for n in needs if re.search(rf'^{n} FAILED', out, re.M) or (rc != 0 and not re.search(rf'^{n} ok', out, re.M))]
+        if failed:
+            self.broken.append(dict(kind='proof-break', what='translator could not translate the current source (unrecognised construct): ' + ', '.join(failed),
                                     detail=out[-1500:]))
-        return rc == 0
+        return not failed
 
     def build(self, prop_file: str = None, extra_targets=(), timeout=900) -> bool:
         """make the .vo closure of Properties/<pid>.v (and extra targets); record obligations + axioms."""
         prop_file = prop_file or f'theories/Properties/{self.pid}.v'
+        self.regenerate()
         self.hygiene()
         targets = [prop_file + 'o'] + [t + 'o' if t.endswith('.v') else t for t in extra_targets]
         with CoqLock():
@@ -248,6 +260,9 @@ class Run:
         self.extra['print_assumptions'] = self.axioms
         if bad:
             self.notes.append('axioms outside the standard library reported: ' + ', '.join(bad))
+        if self.thorough:
+            # independent re-check of the compiled closure of the property file, with the axioms of every loaded library
+            self.coqchk('HV.Properties.' + Path(prop_file).stem)
         return True
 
     def coqchk(self, lib: str, timeout=1500):
@@ -255,57 +270,42 @@ class Run:
             rc, out = sh(['coqchk', '-silent', '-o', '-Q', 'theories', 'HV', '-Q', 'gen', 'HVgen', lib], timeout, cwd=COQ)
         self.checker_cmds.append(f'coqchk -o {lib}')
         tail = out[-1500:]
-        self.extra['coqchk'] = dict(rc=rc, tail=tail)
+        ax = re.findall(r'^\s{4}(\S+)\s*$', out.split('* Axioms:')[1].split('* Constants/Inductives relying on type-in-type')[0], re.M) if '* Axioms:' in out else []
+        self.extra['coqchk'] = dict(rc=rc, axioms_of_loaded_libraries=sorted(ax), type_in_type='<none>' in out.split('type-in-type:')[-1][:12] if 'type-in-type:' in out else None,
+                                    tail=tail[-600:])
         if rc != 0 and rc != 124:
             self.broken.append(dict(kind='proof-break', what=f'coqchk {lib} failed', detail=tail))
 
     # ---------------------------------------------------------------------------------- correspondence
     def corr(self, name: str, module: str, cases, check='check', nontrivial='nontrivial', shard=250, timeout=900,
-             extra_evals=()):
+             extra_evals=(), both=None):
         """Evaluate `module.check` on every case inside Coq (vm_compute). cases: list of lists of floats.
-        Returns (failing indices, number of nontrivial cases as counted by the Gallina predicate)."""
+        Returns (failing indices, number of nontrivial cases as counted by the Gallina predicate).
+        `both` names a function `list float -> bool * bool` (check, nontrivial) evaluated once per case (for expensive models).
+        A shard that runs out of time is split and re-run (down to single cases); a single case that cannot be evaluated within the time
+        limit is recorded as unevaluated - a cost, not a disagreement - and breaks the tie only when more than 2 % of the cases are lost."""
         if not cases:
             return [], 0
         CASES.mkdir(parents=True, exist_ok=True)
-        files = []
-        for k in range(0, len(cases), shard):
-            fn = CASES / f'{self.pid}_{name}_{os.getpid()}_{k // shard}.v'
-            body = ';\n '.join(case_line(c) for c in cases[k:k + shard])
-            text = (
-                'From Coq Require Import List ZArith PrimFloat.\n'
-                f'From HV Require Import Base.FloatDec {module}.\n'
-                'Import ListNotations.\nOpen Scope float_scope.\n'
-                f'Definition cases : list (list float) := [\n {body}\n].\n'
-                f'Eval vm_compute in (failing {check} 0 cases).\n'
-                f'Eval vm_compute in (count {nontrivial} cases).\n'
-                + ''.join(f'Eval vm_compute in ({e}).\n' for e in extra_evals)
-            )
-            fn.write_text(text)
-            files.append(fn)
-        failing, nt, errs = [], 0, []
-        procs = []
-        env = dict(os.environ)
-        with CoqLock():
-            pending = list(enumerate(files))
-            running = []
-            while pending or running:
-                while pending and len(running) < 12:
-                    k, fn = pending.pop(0)
-                    p = subprocess.Popen(['timeout', str(timeout), 'coqc'] + COQ_FLAGS + [str(fn.relative_to(COQ))],
-                                         cwd=COQ, stdout=subprocess.PIPE, stderr=subprocess.STDOUT, env=env)
-                    running.append((k, fn, p))
-                k, fn, p = running.pop(0)
-                out = p.communicate()[0].decode('utf-8', 'replace')
-                procs.append((k, fn, p.returncode, out))
-        for k, fn, rc, out in procs:
-            flat = ' '.join(out.split())
-            m = re.findall(r'= (\[[^\]]*\])(?:%nat)? : list nat', flat)
-            c = re.findall(r'= (\d+)(?:%nat)? : nat', flat)
-            if rc != 0 or not m or not c:
-                errs.append(dict(shard=k, rc=rc, out=out[-1500:]))
+
+        def write(tag, idxs):
+            fn = CASES / f'{self.pid}_{name}_{os.getpid()}_{tag}.v'
+            body = ';\n '.join(case_line(cases[i]) for i in idxs)
+            if both:
+                evals = (f'Definition results := Eval vm_compute in (map {both} cases).\n'
+                         'Eval vm_compute in (failing (@fst bool bool) 0 results).\n'
+                         'Eval vm_compute in (count (@snd bool bool) results).\n')
             else:
-                failing += [k * shard + int(x) for x in re.findall(r'\d+', m[0])]
-                nt += int(c[0])
+                evals = (f'Eval vm_compute in (failing {check} 0 cases).\n'
+                         f'Eval vm_compute in (count {nontrivial} cases).\n')
+            fn.write_text('From Coq Require Import List ZArith PrimFloat.\n'
+                          f'From HV Require Import Base.FloatDec {module}.\n'
+                          'Import ListNotations.\nOpen Scope float_scope.\n'
+                          f'Definition cases : list (list float) := [\n {body}\n].\n' + evals
+                          + ''.join(f'Eval vm_compute in ({e}).\n' for e in extra_evals))
+            return fn
+
+        def cleanup(fn):
             for suffix in ('.v', '.vo', '.vok', '.vos', '.glob'):
                 q = fn.with_suffix(suffix)
                 if q.exists():
@@ -313,11 +313,54 @@ class Run:
             aux = fn.parent / ('.' + fn.stem + '.aux')
             if aux.exists():
                 aux.unlink()
-        self.checker_cmds.append(f'coqc gen/cases/{self.pid}_{name}_*.v  (Eval vm_compute in failing {module}.{check} cases)')
+
+        def run_batch(jobs, tmo):
+            """jobs: list of (tag, idxs); returns list of (idxs, rc, out)"""
+            res, pending, running = [], [(t, ix, write(t, ix)) for t, ix in jobs], []
+            while pending or running:
+                while pending and len(running) < 12:
+                    t, ix, fn = pending.pop(0)
+                    p = subprocess.Popen(['timeout', str(tmo), 'coqc'] + COQ_FLAGS + [str(fn.relative_to(COQ))],
+                                         cwd=COQ, stdout=subprocess.PIPE, stderr=subprocess.STDOUT, env=dict(os.environ))
+                    running.append((ix, fn, p))
+                ix, fn, p = running.pop(0)
+                out = p.communicate()[0].decode('utf-8', 'replace')
+                res.append((ix, p.returncode, out))
+                cleanup(fn)
+            return res
+
+        failing, nt, errs, unevaluated = [], 0, [], []
+        jobs = [(str(k // shard), list(range(k, min(k + shard, len(cases))))) for k in range(0, len(cases), shard)]
+        rnd = 0
+        with CoqLock():
+            while jobs:
+                results = run_batch(jobs, timeout)
+                jobs, rnd = [], rnd + 1
+                for ix, rc, out in results:
+                    flat = ' '.join(out.split())
+                    m = re.findall(r'= (\[[^\]]*\])(?:%nat)? : list nat', flat)
+                    c = re.findall(r'= (\d+)(?:%nat)? : nat', flat)
+                    if rc == 0 and m and c:
+                        failing += [ix[int(x)] for x in re.findall(r'\d+', m[0])]
+                        nt += int(c[0])
+                    elif rc == 124 and len(ix) > 1:
+                        h = len(ix) // 2          # out of time: split and retry
+                        jobs += [(f'r{rnd}_{ix[0]}a', ix[:h]), (f'r{rnd}_{ix[0]}b', ix[h:])]
+                    elif rc == 124:
+                        unevaluated.append(ix[0])
+                    else:
+                        errs.append(dict(shard=ix[:3], rc=rc, out=out[-1500:]))
+        self.checker_cmds.append(f'coqc gen/cases/{self.pid}_{name}_*.v  (Eval vm_compute in failing {module}.{both or check} cases)')
         if errs:
             self.broken.append(dict(kind='correspondence-break', what=f'case shard of {module} did not evaluate', detail=errs[:2]))
-        self.extra.setdefault('correspondence', {})[name] = dict(cases=len(cases), disagreements=len(failing), model_nontrivial=nt)
-        return failing, nt
+        if unevaluated:
+            self.notes.append(f'{len(unevaluated)} of {len(cases)} {name} case(s) not evaluated within {timeout} s (indices {unevaluated[:5]})')
+            if len(unevaluated) * 50 > len(cases):
+                self.broken.append(dict(kind='correspondence-break', what=f'too many cases of {module} could not be evaluated in time',
+                                        detail=dict(unevaluated=unevaluated[:20])))
+        self.extra.setdefault('correspondence', {})[name] = dict(cases=len(cases), disagreements=len(failing), model_nontrivial=nt,
+                                                                 unevaluated=len(unevaluated))
+        return sorted(failing), nt
 
     def guard(self, fn):
         """Run the body of a check; an exception escaping it (the implementation raised where the harness expected it to
